@@ -205,7 +205,7 @@ def stepCall {P S J : Type} [DecidableEq P] (env : Env P S J) (σ : St P S J) : 
   | .free t =>
     match lookup σ.tasks t with
     | none => (σ, .freed)
-    | some task => ({ σ with tasks := σ.tasks, heap := dropTask (some t) σ.heap task }, .freed)
+    | some task => ({ σ with tasks := erase σ.tasks t, heap := dropTask (some t) σ.heap task }, .freed)
 
 def step {P S J : Type} [DecidableEq P] (env : Env P S J) (σ : St P S J) (op : Op P S) : St P S J × Resp P J :=
   if σ.dead then (σ, .trap)
